@@ -39,6 +39,20 @@ func childMain() int {
 	return 3
 }
 
+// checkCases runs prop for the requested number of generated cases or until
+// the soft deadline of the run; cases that were not generated any more are
+// counted in the evidence (cases_not_run_after_soft_deadline).
+func checkCases(t *testing.T, st *kvh.Stats, prop func(*rapid.T)) {
+	t.Helper()
+	rapid.Check(t, func(rt *rapid.T) {
+		if kvh.GetEnv().PastSoftDeadline() {
+			st.ExtraAdd("cases_not_run_after_soft_deadline", 1)
+			return
+		}
+		prop(rt)
+	})
+}
+
 // report records a violation with its replay artefact and fails the test from
 // one single call site (rapid compares tracebacks while shrinking).
 type fataler interface {
